@@ -40,6 +40,12 @@ CHECKS = {
             "Held on the executions observed apart from the listed known findings: sequential log-instrumented programs x enumerated crash points x page splits."),
     "C18": ("exploration", "2 C18", "runtime monitoring of the handler boundary: outcome shape/classification per scenario and thread liveness afterwards",
             "Held on the executions observed: behaviours x locations x exception classes x result kinds x malformed events x checkpoint error categories at every API call position."),
+    "C09": ("exploration", "2 C09", "runtime monitoring: BatchResult vs per-branch ground truth and a reference completion policy, completion orders forced by conductor gates",
+            "Held on the executions observed: item counts 0-8 x 13 completion configs x concurrency limits x per-branch behaviours x forced completion orders, with yield injection and a pause between the executor's state writes."),
+    "C10": ("exploration", "2 C10", "runtime monitoring: applied-update stream after each context completion + function entries in orphaned branches, survivor position forced by conductor gates",
+            "Held on the executions observed: early-completion configs x nesting depth x survivor position x next operation kind, plus the forced check-then-put order."),
+    "C16": ("exploration", "2 C16", "runtime monitoring: payload sizes in encoded bytes, ReplayChildren flag, updates and function entries during replay, rebuilt value equality, response-limit handling",
+            "Held on the executions observed apart from the listed known finding: sizes around both limits x context kinds x summary configs x replays and crash points."),
 }
 
 NOT_YET = "check under construction in this session (machinery not yet registered)"
